@@ -6,7 +6,7 @@ use super::pool::*;
 use bytes::{Buf, BufMut, Bytes, BytesMut};
 use std::fmt::Write as _;
 
-const N_OPS: usize = 26;
+const N_OPS: usize = 27;
 
 /// size of the allocation the handle lives in, as the ledger (or H2) sees it
 fn alloc_size(s: &Slot) -> usize {
@@ -56,6 +56,9 @@ pub fn mut_step(d: &mut Driver, ch: &mut dyn Chooser, i: usize, full: bool) {
     let mut op = ch.choose(N_OPS);
     if full && !ch.exhaustive() && matches!(op, 0..=2 | 14 | 17) {
         op = 20 + ch.choose(6);
+        if op == 25 {
+            op = 26;
+        }
     }
     let mut s = d.pool.swap_remove(i);
     let rname = s.rname();
@@ -466,6 +469,27 @@ pub fn mut_step(d: &mut Driver, ch: &mut dyn Chooser, i: usize, full: bool) {
                 d.cell(format!("M|{rname}|into_iter|-|ok"));
             }
             return;
+        }
+        25 => {
+            // shorten, then take the length back with the unsafe set_len: the bytes are still initialised and
+            // owned by the handle, so the contents must be what they were -- in every build profile (C01, C16)
+            let (n, ca) = pick_idx(ch, len);
+            let how = ch.choose(3);
+            d.log(format!("{} M{sid} {n}; set_len({len})", ["truncate", "resize", "clear"][how]));
+            let m = mref(&mut s);
+            let r = run(d, "M::trunc_restore", || {
+                match how {
+                    0 => m.truncate(n),
+                    1 => m.resize(n, 0),
+                    _ => m.clear(),
+                }
+                // SAFETY: len <= capacity and the first `len` bytes were initialised before the call above
+                unsafe { m.set_len(len) }
+            });
+            if r.is_some() {
+                expect_same_region(d, "M::trunc_restore", &s, p0, cap);
+                d.cell(format!("M|{rname}|trunc_restore|{ca}|ok"));
+            }
         }
         _ => {
             d.log(format!("drop M{sid}"));
